@@ -56,6 +56,34 @@ pub fn case<G: CurveTag>(bytes: &[u8], col: &mut Collector, cfg: &GenCfg) -> Res
             return Err(Failure::new("C01:verify-undecoded", format!("verify(original object) = {}", v2.verdict()), cj()));
         }
     }
+    // chained use: a second statement proved and verified on the transcripts the first run left
+    // behind (borrowed transcripts are simply reused, owned ones are the returned objects)
+    if bytes.get(1).map(|b| b % 8 == 0).unwrap_or(false) {
+        let mut ch2 = Choices::new(&bytes[bytes.len() / 2..]);
+        let mut prog2 = gen_program(&mut ch2, G::CURVE, &GenCfg::small());
+        prog2.pc = prog.pc;
+        let v_first = run_verifier::<G>(&prog, &p.commitments, &decoded, &VerifyOpts::default());
+        if let (Some(tp), Some(tv)) = (p.end.clone(), v_first.end.clone()) {
+            let p2 = run_prover::<G>(&prog2, &ProveOpts { start: Some(tp), ..Default::default() });
+            if p2.model.satisfied() {
+                let cj2 = || json!({"first_program": prog.to_json(), "second_program": prog2.to_json()});
+                match p2.proof.as_ref() {
+                    None => return Err(Failure::new("C01:chained-prove", format!("second proof on the same transcript failed: {:?} {:?}", p2.err, p2.panic), cj2())),
+                    Some(pf2) => {
+                        let v2 = run_verifier::<G>(&prog2, &p2.commitments, pf2, &VerifyOpts { start: Some(tv), ..Default::default() });
+                        if !v2.accepted() {
+                            return Err(Failure::new(
+                                "C01:chained-verify",
+                                format!("a second honest proof made and checked on the transcripts left by the first prove/verify is rejected: {}", v2.verdict()),
+                                cj2(),
+                            ));
+                        }
+                    }
+                }
+                col.class("chained-second-proof");
+            }
+        }
+    }
     // classification
     for c in shape.classes() {
         col.class(c);
@@ -247,7 +275,7 @@ pub fn run(tier: &str, seed: u64) -> i32 {
         rep.outcome.merge(o);
         rep.outcome.exhaustive = false;
     }
-    for c in ["zero-gates", "both-phases", "phase2-only", "half-open-end1", "commit-after-constrain", "capP-at-threshold", "capV-at-threshold", "owned-transcript", "pow2+1-gates", "single-alloc", "custom-pedersen-bases"] {
+    for c in ["zero-gates", "both-phases", "phase2-only", "half-open-end1", "commit-after-constrain", "capP-at-threshold", "capV-at-threshold", "owned-transcript", "pow2+1-gates", "single-alloc", "custom-pedersen-bases", "chained-second-proof"] {
         rep.required_classes.push((c.to_string(), 0.02));
     }
     rep.finish()
